@@ -2,20 +2,20 @@ package protocol
 
 // extra bytes beyond the minimum message length explored by the totality harnesses (thorough tier)
 const (
-	c05XFrame = 6
+	c05XFrame     = 6
 	c05XPeerHello = 8
-	c05XOpen = 20
-	c05XAck = 20
-	c05XErr = 6
-	c05XAdv = 12
-	c05XWd = 24
-	c05XEnc = 36
-	c05XNodeInfo = 6
-	c05XNIA = 6
-	c05XCtl = 20
-	c05XDgram = 20
-	c05XIcmpOpen = 20
-	c05XIcmpEcho = 12
-	c05XSleep = 33
-	c05XQueued = 10
+	c05XOpen      = 20
+	c05XAck       = 20
+	c05XErr       = 6
+	c05XAdv       = 12
+	c05XWd        = 24
+	c05XEnc       = 36
+	c05XNodeInfo  = 6
+	c05XNIA       = 6
+	c05XCtl       = 20
+	c05XDgram     = 20
+	c05XIcmpOpen  = 20
+	c05XIcmpEcho  = 12
+	c05XSleep     = 33
+	c05XQueued    = 10
 )
